@@ -194,7 +194,7 @@ theorem facts_guard :
     Gen.Facts.c14PickShape = some true ∧ Gen.Facts.c14PrivateCopyPerUpstream = some true ∧
     Gen.Facts.c14HelperShape = some true ∧ Gen.Facts.c14CollectShape = some true ∧ Gen.Facts.c14TagSubsets = some true ∧
     Gen.Facts.c14UpstreamPerEntry = some true ∧ Gen.Facts.c14EntryOptions = some true ∧
-    Gen.Facts.c14WrapperTransparent = some true := by decide
+    Gen.Facts.c14WrapperTransparent = some true ∧ Gen.Facts.c14ExecInstallsReply = some true := by decide
 
 /-- the instance the code runs: `maxConcurrentQueries` read from the source -/
 theorem forward_clamp (c : Int) : 1 ≤ clamp (Gen.Facts.c14MaxConcurrent.getD 0) c ∧ clamp (Gen.Facts.c14MaxConcurrent.getD 0) c ≤ 3 := by
@@ -314,6 +314,44 @@ theorem ctx_ends_call_gen (c : Nat) (evs : List Ev) (k : Nat) (hk : k < c) (hev 
     (hbefore : noGoodBefore evs k) : Refine.C14.collectGen c 0 evs = .errCtx := by
   rw [Refine.C14.collectGen_eq]
   exact ctx_ends_call c evs k hk hev hbefore
+
+/-! ## the reply the call leaves in the query context -/
+
+/-- an `Exec` that stores unconditionally leaves the reply chosen by `exchange` in the context, whatever the
+context held before (nothing, the reply of an earlier forward, a cache / hosts answer ...) and whatever the rcode -/
+theorem exec_installs_choice (prev : Slot) (rc f : Nat) :
+    execWith (fun _ _ => false) prev (.reply rc f) = (some (rc, f), true) := rfl
+
+/-- ... and when `exchange` ends with an error the context is left as it was -/
+theorem exec_error_keeps_context (keep : Slot → Nat → Bool) (prev : Slot) (o : Out) (h : ∀ rc f, o ≠ .reply rc f) :
+    execWith keep prev o = (prev, false) := by
+  cases o with
+  | reply rc f => exact absurd rfl (h rc f)
+  | errAllFailed => rfl
+  | errCtx => rfl
+  | pending => rfl
+
+/-- **over the regenerated source**: on this run `Forward.Exec` and the quick-configured executable store the
+outcome of the (regenerated) collection loop unconditionally, so for every response the context already holds,
+every concurrency and every arrival order, a call that returns nil leaves exactly the chosen reply in the context -
+"its reply whatever the rcode". Stops checking when either entry point is anything else than
+exchange / return the error / SetResponse / return nil. -/
+theorem forward_exec_installs (prev : Slot) (c : Nat) (evs : List Ev) (rc f : Nat)
+    (h : Refine.C14.collectGen c 0 evs = .reply rc f) :
+    ∃ k, keepOf (Gen.Facts.c14ExecInstallsReply.getD false) = some k ∧
+      execWith k prev (Refine.C14.collectGen c 0 evs) = (some (rc, f), true) := by
+  have hf : Gen.Facts.c14ExecInstallsReply.getD false = true := by decide
+  rw [hf, h]
+  exact ⟨_, rfl, rfl⟩
+
+/-- an `Exec` that keeps an earlier response when its own outcome is a failure rcode is refuted: the context holds
+a NOERROR answer from an earlier step (origin 200), both queried upstreams answer SERVFAIL / REFUSED; the call
+returns nil and the context still holds the foreign answer, not the reply of the last exchange to finish -/
+theorem keeping_an_earlier_response_is_refuted :
+    execWith (fun prev rc => prev.isSome && !good rc) (some (0, 200)) (collect 2 0 [.res (.reply 2 0), .res (.reply 5 1)]) =
+        (some (0, 200), true) ∧
+      execWith (fun _ _ => false) (some (0, 200)) (collect 2 0 [.res (.reply 2 0), .res (.reply 5 1)]) = (some (5, 1), true) := by
+  decide
 
 /-! ## non-vacuity -/
 
